@@ -395,6 +395,7 @@ type State struct {
 	allocOff int
 	frames   []*Frame
 	opened   map[*ssa.BasicBlock]bool
+	loopEntry map[*ssa.BasicBlock]*HeapView // heap when a loop of the unit was first reached (entry(...) in invariants)
 	strlits  map[string]*Term
 	trace    []string
 	ghostObj map[string]any // engine-side abstract objects (ent builders, hook lists, lock sets)
@@ -435,6 +436,10 @@ func (st *State) clone() *State {
 	n.frames = make([]*Frame, len(st.frames))
 	for i, f := range st.frames {
 		n.frames[i] = f.clone()
+	}
+	n.loopEntry = make(map[*ssa.BasicBlock]*HeapView, len(st.loopEntry))
+	for k, v := range st.loopEntry {
+		n.loopEntry[k] = v
 	}
 	n.opened = make(map[*ssa.BasicBlock]bool, len(st.opened))
 	for k, v := range st.opened {
